@@ -22,6 +22,7 @@
 #include <phosg/JSON.hh>
 #include <phosg/UnitTest.hh>
 
+#include "c19/tu_local.hh"
 #include "verif.hh"
 
 using namespace verif;
@@ -545,6 +546,266 @@ static void run_raises(const Case& c) {
   ctx().cls(cell.should_pass ? "raises:must-pass" : (b == 0 ? "raises:fn-returns" : "raises:wrong-type"));
 }
 
+static uint64_t gen_where();
+
+// ---------------------------------------------------------------- expect_raises across translation units
+//
+// The matrix above draws E and the thrown type from one translation unit, where every type has its own name. Types with
+// internal linkage (unnamed namespace, class local to such a function) exist once per translation unit: this file and
+// harness/c19/other_tu.cc both include c19/tu_local.hh and so each own a ParseError, ParseDetail, NotFound, LocalError and
+// InFunction - same spelling, same mangled name, unrelated types. "fn throws an exception whose type is E or derives from
+// it" is about the type: expect_raises<this file's ParseError> must fail when fn throws the other file's ParseError.
+// Oracle: for an E that is a standard base (shared by both files) std::is_convertible as computed in the throwing file;
+// for a file-local E: same file AND std::is_convertible computed in that file.
+// case: n = [side of E (0 this file, 1 other), E kind, side of fn, thrown kind (kNumLocalThrown = returns), entry, where]
+static const C19TuApi& tu_api(uint64_t side) {
+  static const C19TuApi apis[2] = {local_api(), c19_other_tu_api()};
+  if (side >= 2) throw std::logic_error("bad translation-unit code");
+  return apis[side];
+}
+
+static void run_raises_tu(const Case& c) {
+  uint64_t es = c.u(0), e = c.u(1), ts = c.u(2), k = c.u(3), entry = c.u(4), where = where_of(c, 5);
+  if (e >= static_cast<uint64_t>(kNumLocalExpected) || k > static_cast<uint64_t>(kNumLocalThrown) || entry >= 2) throw std::logic_error("cell outside the matrix");
+  const C19TuApi& ea = tu_api(es);
+  const C19TuApi& ta = tu_api(ts);
+  bool returns = (k == static_cast<uint64_t>(kNumLocalThrown));
+  bool local_e = e < static_cast<uint64_t>(kFirstSharedExpected);
+  bool should_pass = !returns && ta.convertible(static_cast<int>(k), static_cast<int>(e)) && (!local_e || es == ts);
+  int calls = 0;
+  std::function<void()> fn = [&] {
+    calls++;
+    if (!returns) ta.throw_kind(static_cast<int>(k));
+  };
+  const char* file = "explicit-tu-site.cc";
+  uint64_t line = 5000 + es * 1000 + e * 100 + ts * 10 + k;
+  Outcome o = observe_in(where, [&] { ea.expect_kind(static_cast<int>(e), static_cast<int>(entry), fn, file, line); });
+  bool same_name = !returns && local_e && std::string(ta.thrown_type_name(static_cast<int>(k))) == ea.expected_type_name(static_cast<int>(e));
+  // The toolchain's own verdict on the same throw (a catch (const E&) written in E's translation unit). Some toolchains
+  // (clang with libstdc++: type_info names of internal-linkage types are compared as strings) match a file-local type
+  // of another translation unit that has the same name; a helper built from catch clauses cannot do better there, so such
+  // a cell is left open under that toolchain (counted as excluded; oracle/c19_two_tu.py decides it with g++).
+  bool toolchain_matches = !returns && ea.handler_matches(static_cast<int>(e), [&] { ta.throw_kind(static_cast<int>(k)); });
+  bool toolchain_conflates = toolchain_matches && !should_pass && local_e && es != ts && ta.convertible(static_cast<int>(k), static_cast<int>(e)); // would match within one file
+  std::string cls = cat("E=", (local_e ? (es == 0 ? "this-file:" : "other-file:") : ""), kLocalExpectedNames[e], ",fn-",
+      (returns ? "returns" : should_pass ? "throws-matching" : (es != ts && same_name) ? "throws-same-name-from-other-file" : es != ts ? "throws-other-from-other-file" : "throws-other"), at(where));
+  VCHECK(calls >= 1, "fn-not-called", "expect_raises never invoked fn");
+  VCHECK(calls == 1, cat("fn-called-again:", cls), "expect_raises invoked fn ", calls, " times");
+  if (!returns) VCHECK(toolchain_matches == should_pass || toolchain_conflates, cat("ORACLE-handler-disagrees:", cls), "a catch (const E&) handler ", (toolchain_matches ? "matches" : "does not match"), " although the hierarchy says otherwise");
+  if (toolchain_conflates) {
+    ctx().exclude("expect_raises: this toolchain's catch (const E&) matches a file-local type of another translation unit by name (verdict decided by the g++ build in c19_two_tu)");
+    if (o.threw) check_failure(o, file, line, "", false, "", cat("raises:", cls));
+    return;
+  }
+  if (should_pass) {
+    VCHECK(!o.threw, cat("raises-must-pass:", cls), "expect_raises<", kLocalExpectedNames[e], "> (fn throws ", kLocalThrownNames[k], ") threw ", (o.is_expectation_failed ? "expectation_failed" : o.other_type), ": ", o.what);
+  } else {
+    VCHECK(o.threw, cat("raises-must-fail:", cls), "expect_raises<", kLocalExpectedNames[e], " of translation unit ", es, "> (fn ", (returns ? "returns" : cat("throws ", kLocalThrownNames[k], " of translation unit ", ts)), ") returned normally");
+    check_failure(o, file, line, "", false, "", cat("raises:", cls));
+  }
+  ctx().cls(cat("where:", kWhereNames[where]));
+  ctx().cls(should_pass ? "raises_tu:must-pass" : returns ? "raises_tu:fn-returns" : (es != ts && same_name) ? "raises_tu:same-name-other-file" : "raises_tu:wrong-type");
+  // non-trivial: E is file-local (its identity, not its name, decides), or the thrown object comes from the other file
+  if (local_e || es != ts) ctx().nontrivial_case();
+}
+
+static void enum_raises_tu(Enum& en) {
+  uint64_t idx = 0;
+  for (uint64_t es = 0; es < 2; es++)
+    for (uint64_t e = 0; e < static_cast<uint64_t>(kNumLocalExpected); e++)
+      for (uint64_t ts = 0; ts < 2; ts++)
+        for (uint64_t k = 0; k <= static_cast<uint64_t>(kNumLocalThrown); k++)
+          for (uint64_t entry = 0; entry < 2; entry++)
+            for (uint64_t w = 0; w < kNumWhere; w++)
+              if (en.mine(idx++)) en.exec(Case("raises_tu").N(es).N(e).N(ts).N(k).N(entry).N(w));
+  en.complete("2 translation units x 9 expected types (5 file-local, 4 standard bases) x 2 translation units x {throws each of the 5 file-local types, returns} x {macro, expect_raises_fn} x 5 ambient states");
+}
+
+// ---------------------------------------------------------------- every operand is evaluated exactly once
+//
+// "Throws exactly when the stated relation is false ... and does nothing otherwise": the relation is the one between the
+// values the operand expressions yield at the call, so each operand expression is evaluated once, whether the expectation
+// holds or fails - expect_eq(n++, 1), expect_eq(queue.pop(), 8), expect(toggle()) - and the verdict is the relation on
+// those (first) values. Operands here are expressions with a side effect: a source that counts its evaluations and yields
+// v0 the first time, v1 afterwards. The message expression of expect_msg may be evaluated at most once; the function of
+// expect_raises is called once and the verdict follows that call.
+// case: n = [helper (0..7 as in rel_*, 8 = expect_raises), type (0 int64, 1 string), a0, a1, b0, b1, where]
+template <typename T>
+struct Source {
+  T v0, v1;
+  int count = 0;
+  const T& next() { return count++ == 0 ? v0 : v1; }
+};
+struct MessageSource {
+  int count = 0;
+  const char* get(const char* m) {
+    count++;
+    return m;
+  }
+};
+
+template <typename T, typename TruthFn>
+static void run_once_t(uint64_t rel, Source<T> a, Source<T> b, TruthFn truth, const char* tn, uint64_t where) {
+  uint64_t line = 0;
+  bool expected = false;
+  std::string msg;
+  MessageSource m;
+  Outcome o;
+  switch (rel) {
+    case 0:
+      expected = (a.v0 == b.v0);
+      o = observe_in(where, [&] { SITE(expect_eq(a.next(), b.next())); });
+      msg = "a.next() != b.next()";
+      break;
+    case 1:
+      expected = (a.v0 != b.v0);
+      o = observe_in(where, [&] { SITE(expect_ne(a.next(), b.next())); });
+      msg = "a.next() == b.next()";
+      break;
+    case 2:
+      expected = (a.v0 > b.v0);
+      o = observe_in(where, [&] { SITE(expect_gt(a.next(), b.next())); });
+      msg = "a.next() <= b.next()";
+      break;
+    case 3:
+      expected = (a.v0 >= b.v0);
+      o = observe_in(where, [&] { SITE(expect_ge(a.next(), b.next())); });
+      msg = "a.next() < b.next()";
+      break;
+    case 4:
+      expected = (a.v0 < b.v0);
+      o = observe_in(where, [&] { SITE(expect_lt(a.next(), b.next())); });
+      msg = "a.next() >= b.next()";
+      break;
+    case 5:
+      expected = (a.v0 <= b.v0);
+      o = observe_in(where, [&] { SITE(expect_le(a.next(), b.next())); });
+      msg = "a.next() > b.next()";
+      break;
+    case 6:
+      expected = truth(a.v0);
+      o = observe_in(where, [&] { SITE(expect(truth(a.next()))); });
+      msg = "!(truth(a.next()))";
+      break;
+    case 7:
+      expected = truth(a.v0);
+      o = observe_in(where, [&] { SITE(expect_msg(truth(a.next()), m.get("once message 9d1e"))); });
+      msg = "once message 9d1e";
+      break;
+    default:
+      throw std::logic_error("bad relation code");
+  }
+  std::string cls = cat(kRelNames[rel], ":", tn, at(where));
+  bool left_changes = !(a.v0 == a.v1), right_changes = rel < 6 && !(b.v0 == b.v1);
+  std::string ocls = cat(cls, (left_changes || right_changes) ? ",operand-changes-on-re-evaluation" : ",operand-with-side-effect");
+  if (expected) {
+    check_success(o, ocls);
+  } else {
+    check_failure(o, __FILE__, line, msg, true, msg, ocls);
+  }
+  VCHECK(a.count == 1, cat("operand-evaluations:", cls, expected ? ",holds" : ",fails"), "the left operand expression was evaluated ", a.count, " times");
+  if (rel < 6) VCHECK(b.count == 1, cat("operand-evaluations:", cls, expected ? ",holds" : ",fails"), "the right operand expression was evaluated ", b.count, " times");
+  if (rel == 7) VCHECK(m.count <= 1, cat("message-evaluations:", cls, expected ? ",holds" : ",fails"), "the message expression was evaluated ", m.count, " times");
+  ctx().cls(cat("once:", kRelNames[rel], expected ? ":holds" : ":fails"));
+  ctx().cls((left_changes || right_changes) ? "once:value-changes" : "once:same-value");
+  ctx().cls(cat("where:", kWhereNames[where]));
+}
+
+// expect_raises on a function with state: behaviour b0 at the first call, b1 at later ones (0 returns, 1 throws
+// std::runtime_error, 2 throws std::logic_error, 3 throws int); E = std::runtime_error
+static void run_once_raises(uint64_t b0, uint64_t b1, uint64_t entry, uint64_t where) {
+  if (b0 > 3 || b1 > 3 || entry > 1) throw std::logic_error("bad behaviour code");
+  int calls = 0;
+  auto fn = [&] {
+    uint64_t b = calls++ == 0 ? b0 : b1;
+    if (b == 1) throw std::runtime_error("stateful fn: runtime_error");
+    if (b == 2) throw std::logic_error("stateful fn: logic_error");
+    if (b == 3) throw 7;
+  };
+  uint64_t line = 0;
+  const char* file = __FILE__;
+  Outcome o;
+  if (entry == 0) {
+    o = observe_in(where, [&] { SITE(expect_raises(std::runtime_error, fn)); });
+  } else {
+    file = "explicit-once-site.cc";
+    line = 7000 + b0 * 10 + b1;
+    o = observe_in(where, [&] { phosg::expect_raises_fn<std::runtime_error>(file, line, fn); });
+  }
+  std::string cls = cat("expect_raises:stateful-fn", at(where));
+  if (b0 == 1) {
+    check_success(o, cls);
+  } else {
+    check_failure(o, file, line, "", false, "", cls);
+  }
+  VCHECK(calls == 1, cat("operand-evaluations:", cls), "fn was called ", calls, " times");
+  ctx().cls(b0 == 1 ? "once:expect_raises:holds" : "once:expect_raises:fails");
+  ctx().cls(cat("where:", kWhereNames[where]));
+}
+
+static std::string once_string(uint64_t v) { return std::string(v % 6, 'a'); }
+
+static void run_once(const Case& c) {
+  uint64_t rel = c.u(0), type = c.u(1), where = where_of(c, 6);
+  if (rel == 8) {
+    run_once_raises(c.u(2), c.u(3), c.u(4), where);
+  } else if (type == 0) {
+    run_once_t<int64_t>(rel, Source<int64_t>{c.i(2), c.i(3)}, Source<int64_t>{c.i(4), c.i(5)}, [](int64_t v) { return v != 0; }, "int64", where);
+  } else if (type == 1) {
+    run_once_t<std::string>(rel, Source<std::string>{once_string(c.u(2)), once_string(c.u(3))}, Source<std::string>{once_string(c.u(4)), once_string(c.u(5))},
+        [](const std::string& v) { return !v.empty(); }, "string", where);
+  } else {
+    throw std::logic_error("bad type code");
+  }
+  ctx().nontrivial_case();
+}
+
+static void enum_once(Enum& e) {
+  uint64_t idx = 0;
+  for (uint64_t rel = 0; rel < 8; rel++)
+    for (uint64_t type = 0; type < 2; type++)
+      for (uint64_t a0 = 0; a0 < 3; a0++)
+        for (uint64_t a1 = 0; a1 < 3; a1++)
+          for (uint64_t b0 = 0; b0 < 3; b0++)
+            for (uint64_t b1 = 0; b1 < 3; b1++)
+              for (uint64_t w = 0; w < kNumWhere; w++)
+                if (e.mine(idx++)) e.exec(Case("once").N(rel).N(type).N(a0).N(a1).N(b0).N(b1).N(w));
+  for (uint64_t b0 = 0; b0 < 4; b0++)
+    for (uint64_t b1 = 0; b1 < 4; b1++)
+      for (uint64_t entry = 0; entry < 2; entry++)
+        for (uint64_t w = 0; w < kNumWhere; w++)
+          if (e.mine(idx++)) e.exec(Case("once").N(8).N(0).N(b0).N(b1).N(entry).N(0).N(w));
+  e.complete("8 helpers x {int64, string} x operand sources (first value, later value) over {0,1,2}^2 for each side x 5 ambient states; expect_raises x 4 x 4 behaviours of a stateful fn (first call, later calls) x 2 entry points x 5 ambient states");
+}
+
+static Case gen_once() {
+  uint64_t rel = vg::below(9);
+  if (rel == 8) return Case("once").N(8).N(0).N(vg::below(4)).N(vg::below(4)).N(vg::below(2)).N(0).N(gen_where());
+  uint64_t type = vg::below(2);
+  int64_t a0 = static_cast<int64_t>(vg::interesting64());
+  if (rel >= 6 && vg::coin()) a0 = 0;
+  int64_t b0;
+  switch (vg::below(4)) {
+    case 0: b0 = a0; break;
+    case 1: b0 = static_cast<int64_t>(static_cast<uint64_t>(a0) + 1); break;
+    case 2: b0 = static_cast<int64_t>(static_cast<uint64_t>(a0) - 1); break;
+    default: b0 = static_cast<int64_t>(vg::interesting64()); break;
+  }
+  // the value a re-evaluation would see: the same, the neighbours (n++ / pop), the other side's value, zero, anything
+  auto later = [&](int64_t own, int64_t other) -> int64_t {
+    switch (vg::below(6)) {
+      case 0: return own;
+      case 1: return static_cast<int64_t>(static_cast<uint64_t>(own) + 1);
+      case 2: return static_cast<int64_t>(static_cast<uint64_t>(own) - 1);
+      case 3: return other;
+      case 4: return own == 0 ? 1 : 0;
+      default: return static_cast<int64_t>(vg::interesting64());
+    }
+  };
+  int64_t a1 = later(a0, b0), b1 = later(b0, a0);
+  return Case("once").N(rel).N(type).I(a0).I(a1).I(b0).I(b1).N(gen_where());
+}
+
 // ---------------------------------------------------------------- enumerators and generators
 
 static const std::vector<int64_t> kInts = {INT64_MIN, -1, 0, 1, INT64_MAX};
@@ -839,6 +1100,8 @@ static void enum_retain(Enum& e) {
 int main(int argc, char** argv) {
   std::vector<SubCheck> checks;
   checks.push_back({"raises", run_raises, nullptr, 0, 0, 100, enum_raises});
+  checks.push_back({"raises_tu", run_raises_tu, nullptr, 0, 0, 100, enum_raises_tu});
+  checks.push_back({"once", run_once, gen_once, 80000, 400000, 100, enum_once});
   checks.push_back({"rel_int", run_rel_int, gen_rel_int, 160000, 800000, 100, enum_rel_int});
   checks.push_back({"rel_dbl", run_rel_dbl, gen_rel_dbl, 160000, 800000, 100, enum_rel_dbl});
   checks.push_back({"rel_str", run_rel_str, gen_rel_str, 160000, 800000, 100, enum_rel_str});
